@@ -85,8 +85,10 @@ def consistent(obj):
     return out
 
 
-def judge(part, api, fmtname, path, fmt, kind_label, info, limit, abandon=False):
-    """Execute one load and judge the outcome.  Returns outcome label."""
+def judge(part, api, fmtname, path, fmt, kind_label, info, limit, abandon=None):
+    """Execute one load and judge the outcome; returns the outcome label.
+
+    abandon: None = exhaust the frame iterator; k = request k frames, then close and drop the iterator (k = 0: never started)."""
     from iodata import load_many, load_one
     from iodata.utils import FileFormatError, LoadError
 
@@ -99,11 +101,13 @@ def judge(part, api, fmtname, path, fmt, kind_label, info, limit, abandon=False)
                     objs = [load_one(path, fmt=fmt)]
                 else:
                     it = load_many(path, fmt=fmt)
-                    if abandon:
+                    if abandon is not None:
                         objs = []
-                        for o in it:
-                            objs.append(o)
-                            break
+                        for _ in range(abandon):
+                            try:
+                                objs.append(next(it))
+                            except StopIteration:
+                                break
                         it.close()
                         del it
                     else:
@@ -138,7 +142,7 @@ def judge(part, api, fmtname, path, fmt, kind_label, info, limit, abandon=False)
         part.violation("exception-type", f"{fmtname}:{api}:escapes-{type(exc).__name__}:{origin(exc)}", info, f"{fmtname} {api} [{info['fault']}]: {type(exc).__name__} escaped: {str(exc)[:200]!r}")
     for lit in lits:
         if lit.fh is not None and not lit.fh.closed:
-            part.violation("closed", f"{fmtname}:{api}:file-left-open" + (":abandoned" if abandon else ""), info, f"{fmtname} {api} [{info['fault']}]: file handle still open after {label}")
+            part.violation("closed", f"{fmtname}:{api}:file-left-open" + (f":abandoned-after-{abandon}" if abandon is not None else ""), info, f"{fmtname} {api} [{info['fault']}]: file handle still open after {label}")
             lit.fh.close()
     part.outcome(f"{api}", label)
     return label
@@ -199,7 +203,8 @@ def worker(chunk, seed, tier):
                 if has_many:
                     judge(part, "load_many", fmtname, path, fmt, kl, info, limit)
                     if kl.startswith("truncate") and nmut % 7 == 0:
-                        judge(part, "load_many", fmtname, path, fmt, kl, info, limit, abandon=True)
+                        for k in (0, 1, 2):
+                            judge(part, "load_many", fmtname, path, fmt, kl, info, limit, abandon=k)
             part.cov[f"mutations:{group}"] = part.cov.get(f"mutations:{group}", 0) + nmut
             if len(part.samples) < 1:
                 part.sample({"file": fname, "group": group, "mutations": nmut})
@@ -363,7 +368,7 @@ def run(ctx):
         f"every line-boundary truncation of every generated file and of every corpus file with <= {small_limit} lines (larger files: every n-th line, listed under capped_files); every byte truncation of "
         "generated files <= 6000 bytes; every single-line delete/duplicate/swap and every single-token substitution from an 8-entry menu on generated (and small corpus) files; empty, binary and "
         "newline-only content under every name; every generated file's content under every other format's name; explicit fmt= for every module. Each mutated file is loaded with load_one and, where "
-        "available, load_many (exhausted; every 7th truncation also abandoned after the first frame). Non-trivial/distinct = (file, fault group, outcome class)."
+        "available, load_many (exhausted; every 7th truncation also closed and dropped after 0, 1 and 2 requested frames). Non-trivial/distinct = (file, fault group, outcome class)."
     )
     ctx.assumptions += ["generated files are written by iodata's own writers from the default C02 objects (they only serve as well-formed seeds to mutate)",
                         "watchdog = max(20 s, 30 x the time of the unmodified load) of CPU time (ITIMER_PROF); a timeout is reported as non-termination; a job stops after 3 timeouts",
